@@ -1361,6 +1361,50 @@ fn exec_rt(case: &Case, iour: bool, kind: &str, ex: &mut Exec) {
 // layer `prod`: descriptors produced by operations, cancel timing, both drivers
 // ---------------------------------------------------------------------------------------------
 
+/// Descriptor 0 is kept occupied by a placeholder (a dup of the original stdin) except while the real code
+/// runs a step that may produce a descriptor: then 0 is free and the kernel hands it out. Restores stdin on drop.
+struct Fd0Guard {
+    saved: RawFd,
+    placeholder: bool,
+}
+
+impl Fd0Guard {
+    fn new() -> Self {
+        let mut saved = unsafe { libc::fcntl(0, libc::F_DUPFD_CLOEXEC, 3) };
+        if saved < 0 {
+            saved = std::os::fd::IntoRawFd::into_raw_fd(devnull());
+            if saved == 0 {
+                saved = unsafe { libc::fcntl(0, libc::F_DUPFD_CLOEXEC, 3) };
+            }
+        }
+        unsafe { libc::dup2(saved, 0) };
+        Fd0Guard { saved, placeholder: true }
+    }
+
+    fn free0(&mut self) {
+        if self.placeholder {
+            unsafe { libc::close(0) };
+            self.placeholder = false;
+        }
+    }
+
+    fn restore0(&mut self) {
+        if !self.placeholder && !fd_is_open(0) {
+            unsafe { libc::dup2(self.saved, 0) };
+            self.placeholder = true;
+        }
+    }
+}
+
+impl Drop for Fd0Guard {
+    fn drop(&mut self) {
+        unsafe {
+            libc::dup2(self.saved, 0);
+            libc::close(self.saved);
+        }
+    }
+}
+
 /// what a finished producing operation hands to the caller (kept alive = "taken")
 enum Got {
     Tcp(compio_net::TcpStream),
@@ -1394,11 +1438,18 @@ struct ProdWorld<'a> {
     small: bool,
     /// a descriptor-level monitor fired: tear down without dropping owners of aliased numbers
     poisoned: bool,
+    /// `fd0` variant: descriptor 0 is free whenever the real code may produce a descriptor (last field:
+    /// stdin is restored after everything else is gone, also on unwinding)
+    fd0: Option<Fd0Guard>,
 }
 
 impl<'a> ProdWorld<'a> {
-    fn new(rt: &'a Runtime, kind: &str, small: bool) -> Option<Self> {
-        let baseline = open_fds();
+    fn new(rt: &'a Runtime, kind: &str, small: bool, fd0: bool) -> Option<Self> {
+        let fd0 = fd0.then(Fd0Guard::new);
+        let mut baseline = open_fds();
+        if fd0.is_some() {
+            baseline.retain(|fd| *fd != 0);
+        }
         let (listener, addr) = if kind == "accept" || kind == "multi" {
             let l = std::net::TcpListener::bind("127.0.0.1:0").unwrap();
             let addr = l.local_addr().unwrap();
@@ -1424,7 +1475,17 @@ impl<'a> ProdWorld<'a> {
             waker,
             small,
             poisoned: false,
+            fd0,
         })
+    }
+
+    /// descriptors that are open for a reason the harness knows
+    fn base_now(&self) -> Vec<RawFd> {
+        let mut b = self.baseline.clone();
+        if self.fd0.as_ref().is_some_and(|g| g.placeholder) {
+            b.insert(0, 0);
+        }
+        b
     }
 
     /// descriptor numbers owned by live values of the harness: (who, fd)
@@ -1539,7 +1600,7 @@ impl<'a> ProdWorld<'a> {
 
     /// descriptors that are open, not in the baseline and not owned by the harness
     fn unexplained(&self) -> usize {
-        let mut mine: Vec<RawFd> = self.baseline.clone();
+        let mut mine: Vec<RawFd> = self.base_now();
         if let Some(l) = &self.listener {
             mine.push(l.as_raw_fd());
         }
@@ -1596,6 +1657,20 @@ impl<'a> ProdWorld<'a> {
     }
 
     fn event(&mut self, w: &[&str], ex: &mut Exec) -> Option<String> {
+        let producing = matches!(w.first().copied(), Some("submit" | "settle" | "poll" | "drain"));
+        if producing {
+            if let Some(g) = self.fd0.as_mut() {
+                g.free0();
+            }
+        }
+        let r = self.event_inner(w, ex);
+        if let Some(g) = self.fd0.as_mut() {
+            g.restore0();
+        }
+        r
+    }
+
+    fn event_inner(&mut self, w: &[&str], ex: &mut Exec) -> Option<String> {
         let mut r = "-".to_string();
         let mut x = "-".to_string();
         match w[0] {
@@ -1668,6 +1743,9 @@ impl<'a> ProdWorld<'a> {
 
     fn end(mut self, ex: &mut Exec) -> String {
         let cancelled_blocking = matches!(self.kind.as_str(), "open" | "socket" | "pipe") && self.submitted;
+        if let Some(g) = self.fd0.as_mut() {
+            g.restore0();
+        }
         self.check_owners("end", ex);
         if !self.poisoned {
             self.roundtrip(ex);
@@ -1695,7 +1773,7 @@ impl<'a> ProdWorld<'a> {
             settle(self.rt, Duration::from_millis(2), || false);
             // whatever the forgotten values still pinned (queued descriptors, ...) is closed by number
             for fd in open_fds() {
-                if !self.baseline.contains(&fd) {
+                if !self.baseline.contains(&fd) && fd != 0 {
                     unsafe { libc::close(fd) };
                 }
             }
@@ -1708,7 +1786,7 @@ impl<'a> ProdWorld<'a> {
         if cancelled_blocking {
             pool_barrier(self.rt);
         }
-        let base = self.baseline.clone();
+        let base = self.base_now();
         let ok = settle(self.rt, Duration::from_millis(300), || open_fds() == base);
         let after = open_fds();
         let extra: Vec<_> = after.iter().filter(|fd| !base.contains(fd)).collect();
@@ -1725,7 +1803,7 @@ impl<'a> ProdWorld<'a> {
     }
 }
 
-fn exec_prod(case: &Case, drv: &str, kind: &str, ex: &mut Exec) {
+fn exec_prod(case: &Case, drv: &str, kind: &str, fd0: bool, ex: &mut Exec) {
     let idx = match drv {
         "poll" => 0,
         "iour" => 1,
@@ -1734,7 +1812,7 @@ fn exec_prod(case: &Case, drv: &str, kind: &str, ex: &mut Exec) {
     let r = with_rt_idx(idx, |rt| {
         // let stragglers of earlier cases finish
         settle(rt, Duration::from_micros(200), || false);
-        let Some(w) = (if idx == 2 && kind != "multi" { None } else { ProdWorld::new(rt, kind, idx == 2) }) else {
+        let Some(w) = (if idx == 2 && kind != "multi" { None } else { ProdWorld::new(rt, kind, idx == 2, fd0) }) else {
             for _ in &case.lines {
                 ex.out.push("bad-op".into());
             }
@@ -1765,8 +1843,307 @@ fn exec_prod(case: &Case, drv: &str, kind: &str, ex: &mut Exec) {
         if let Some(w) = world.take() {
             w.end(ex);
         }
-        ex.tag(format!("prod-{}-{}", drv, kind));
+        ex.tag(format!("prod-{}-{}{}", drv, kind, if fd0 { "-fd0" } else { "" }));
         ex.tag(format!("prodseq-{}", kinds.join(">")));
+        ex.nontrivial = true;
+    });
+    if let Err(e) = r {
+        ex.out.clear();
+        for _ in &case.lines {
+            ex.out.push(format!("no-runtime {e}"));
+        }
+    }
+}
+
+// ---------------------------------------------------------------------------------------------
+// layer `splice`: the one operation that holds clones of TWO shared descriptors (pipe -> pipe)
+// ---------------------------------------------------------------------------------------------
+
+type SpliceFut = Pin<Box<dyn Future<Output = io::Result<usize>>>>;
+
+fn pipe_nb() -> (RawFd, RawFd) {
+    let mut fds = [0 as RawFd; 2];
+    let r = unsafe { libc::pipe2(fds.as_mut_ptr(), libc::O_NONBLOCK | libc::O_CLOEXEC) };
+    assert_eq!(r, 0);
+    (fds[0], fds[1])
+}
+
+struct End {
+    handle: Option<compio_fs::File>,
+    closer: Option<CloseFut>,
+    closer_parked: bool,
+    raw: RawFd,
+    count_ptr: *const usize,
+    closed: bool,
+}
+
+impl End {
+    fn new(raw: RawFd) -> Self {
+        let f = unsafe { compio_fs::File::from_raw_fd(raw) };
+        let count_ptr = Obj::File(f.clone()).count_ptr();
+        End { handle: Some(f), closer: None, closer_parked: false, raw, count_ptr, closed: false }
+    }
+
+    fn observe(&mut self) -> bool {
+        if !self.closed && !fd_is_open(self.raw) {
+            self.closed = true;
+        }
+        self.closed
+    }
+
+    fn count(&mut self) -> usize {
+        if self.observe() { 0 } else { unsafe { std::ptr::read_volatile(self.count_ptr) } }
+    }
+}
+
+struct SpliceWorld<'a> {
+    rt: &'a Runtime,
+    src: End,
+    dst: End,
+    /// harness-owned other ends: write end of the source pipe, read end of the destination pipe
+    src_w: OwnedFd,
+    dst_r: OwnedFd,
+    fut: Option<SpliceFut>,
+    started: bool,
+    in_flight: bool,
+    waker: Waker,
+    wake_log: Arc<Mutex<Vec<usize>>>,
+}
+
+impl<'a> SpliceWorld<'a> {
+    fn new(rt: &'a Runtime, fed: bool, iour: bool) -> Self {
+        let (ra, wa) = pipe_nb();
+        let (rb, wb) = pipe_nb();
+        // destination full: the splice cannot make progress until `fin` drains it
+        let chunk = [0u8; 4096];
+        loop {
+            let n = unsafe { libc::write(wb, chunk.as_ptr().cast(), chunk.len()) };
+            if n <= 0 {
+                break;
+            }
+        }
+        if fed {
+            let n = unsafe { libc::write(wa, b"12345678".as_ptr().cast(), 8) };
+            assert_eq!(n, 8);
+        }
+        if iour {
+            // io_uring does not poll for a splice: on non-blocking pipes it would fail with EAGAIN at once.
+            // Blocking ends keep the operation in flight (io-wq) until it can proceed or is cancelled.
+            for fd in [ra, wb] {
+                unsafe {
+                    let fl = libc::fcntl(fd, libc::F_GETFL);
+                    libc::fcntl(fd, libc::F_SETFL, fl & !libc::O_NONBLOCK);
+                }
+            }
+        }
+        let wake_log = Arc::new(Mutex::new(vec![]));
+        let waker = mk_waker(0, &wake_log);
+        SpliceWorld {
+            rt,
+            src: End::new(ra),
+            dst: End::new(wb),
+            src_w: unsafe { OwnedFd::from_raw_fd(wa) },
+            dst_r: unsafe { OwnedFd::from_raw_fd(rb) },
+            fut: None,
+            started: false,
+            in_flight: false,
+            waker,
+            wake_log,
+        }
+    }
+
+    fn line(&mut self, r: &str) -> String {
+        let (ci, co) = (self.src.count(), self.dst.count());
+        format!("ok ci={} co={} oi={} oo={} r={}", ci, co, !self.src.closed as u8, !self.dst.closed as u8, r)
+    }
+
+    fn poll_closer(rt: &Runtime, end: &mut End, expect_done: bool, waker: &Waker) -> Option<&'static str> {
+        let f = end.closer.as_mut()?;
+        let mut out = None;
+        let mut polls = 0;
+        settle(rt, if expect_done { Duration::from_millis(700) } else { Duration::from_micros(300) }, || {
+            polls += 1;
+            if polls > 1 && !expect_done {
+                return true;
+            }
+            let mut cx = Context::from_waker(waker);
+            match f.as_mut().poll(&mut cx) {
+                Poll::Ready(x) => {
+                    out = Some(x);
+                    true
+                }
+                Poll::Pending => false,
+            }
+        });
+        match out {
+            Some(_) => {
+                end.closer = None;
+                end.closer_parked = false;
+                Some("ready")
+            }
+            None => {
+                end.closer_parked = true;
+                Some("pending")
+            }
+        }
+    }
+
+    fn event(&mut self, w: &[&str], ex: &mut Exec) -> Option<String> {
+        let mut r = "-";
+        match w {
+            ["start"] => {
+                if self.started || self.src.handle.is_none() || self.dst.handle.is_none() {
+                    return None;
+                }
+                self.started = true;
+                let fut = compio_fs::pipe::splice(self.src.handle.as_ref().unwrap(), self.dst.handle.as_ref().unwrap(), 8);
+                let mut fut: SpliceFut = Box::pin(std::future::IntoFuture::into_future(fut));
+                let mut cx = Context::from_waker(&self.waker);
+                match fut.as_mut().poll(&mut cx) {
+                    Poll::Pending => {
+                        self.fut = Some(fut);
+                        self.in_flight = true;
+                        r = "pending";
+                    }
+                    Poll::Ready(_) => r = "ready",
+                }
+                // let the driver take the operation (submission, registration)
+                drive(self.rt);
+            }
+            ["cancel"] => {
+                self.fut.take()?;
+                // the driver lets go of the cancelled operation and with it of BOTH clones
+                let (pi, po) = (self.src.count_ptr, self.dst.count_ptr);
+                let (ri, ro) = (self.src.raw, self.dst.raw);
+                let (bi, bo) = (self.src.count(), self.dst.count());
+                let done = settle(self.rt, Duration::from_millis(300), || {
+                    let ci = if fd_is_open(ri) { unsafe { std::ptr::read_volatile(pi) } } else { 0 };
+                    let co = if fd_is_open(ro) { unsafe { std::ptr::read_volatile(po) } } else { 0 };
+                    ci < bi.max(1) && co < bo.max(1)
+                });
+                self.in_flight = false;
+                if !done {
+                    ex.fail(
+                        "C06:cancel-keeps-clone",
+                        format!("splice cancelled, driver driven for 300 ms: strong counts in {} -> {}, out {} -> {} (the operation still holds a clone)", bi, self.src.count(), bo, self.dst.count()),
+                    );
+                }
+            }
+            ["fin"] => {
+                let mut fut = self.fut.take()?;
+                // make both ends ready: data in the source, room in the destination
+                let _ = unsafe { libc::write(self.src_w.as_raw_fd(), b"abcdefgh".as_ptr().cast(), 8) };
+                let mut buf = [0u8; 8192];
+                loop {
+                    let n = unsafe { libc::read(self.dst_r.as_raw_fd(), buf.as_mut_ptr().cast(), buf.len()) };
+                    if n <= 0 {
+                        break;
+                    }
+                }
+                let mut res = None;
+                let waker = self.waker.clone();
+                settle(self.rt, Duration::from_secs(2), || {
+                    let mut cx = Context::from_waker(&waker);
+                    match fut.as_mut().poll(&mut cx) {
+                        Poll::Ready(x) => {
+                            res = Some(x);
+                            true
+                        }
+                        Poll::Pending => false,
+                    }
+                });
+                drop(fut);
+                self.in_flight = false;
+                r = match res {
+                    Some(Ok(_)) => "ok",
+                    Some(Err(e)) => {
+                        ex.fail(
+                            if e.raw_os_error() == Some(libc::EBADF) { "C06:ebadf" } else { "C06:op-error" },
+                            format!("splice holding both clones failed: {e}"),
+                        );
+                        "err"
+                    }
+                    None => {
+                        ex.fail("C06:op-stuck", "splice did not complete after both ends became ready");
+                        "stuck"
+                    }
+                };
+            }
+            [k @ ("closein" | "closeout")] => {
+                let end = if *k == "closein" { &mut self.src } else { &mut self.dst };
+                let h = end.handle.take()?;
+                end.closer = Some(Box::pin(h.close()));
+                let expect = !self.in_flight;
+                r = Self::poll_closer(self.rt, end, expect, &self.waker)?;
+                if r == "pending" && expect {
+                    ex.fail("C06:close-hangs", format!("{k}: close() does not complete although no operation is in flight and no other handle exists"));
+                }
+            }
+            [k @ ("pollin" | "pollout")] => {
+                let end = if *k == "pollin" { &mut self.src } else { &mut self.dst };
+                let expect = !self.in_flight;
+                r = Self::poll_closer(self.rt, end, expect, &self.waker)?;
+                if r == "pending" && expect {
+                    ex.fail("C06:close-hangs", format!("{k}: close() does not complete although no operation is in flight and no other handle exists"));
+                }
+            }
+            [k @ ("dropin" | "dropout")] => {
+                let end = if *k == "dropin" { &mut self.src } else { &mut self.dst };
+                drop(end.handle.take()?);
+            }
+            _ => return None,
+        }
+        // descriptor-level monitors
+        for (name, end) in [("in", &mut self.src), ("out", &mut self.dst)] {
+            let closed = end.observe();
+            let owners = end.handle.is_some() || end.closer.is_some() || self.in_flight;
+            if closed && owners {
+                ex.fail("C06:closed-in-use", format!("splice end `{name}` closed while a handle / operation / close() owns it (after `{}`)", w.join(" ")));
+            }
+        }
+        Some(self.line(r))
+    }
+
+    fn finish(mut self, ex: &mut Exec) {
+        self.fut = None;
+        self.src.closer = None;
+        self.dst.closer = None;
+        self.src.handle = None;
+        self.dst.handle = None;
+        let (ri, ro) = (self.src.raw, self.dst.raw);
+        settle(self.rt, Duration::from_millis(if self.in_flight { 300 } else { 5 }), || !fd_is_open(ri) && !fd_is_open(ro));
+        for (name, raw) in [("in", ri), ("out", ro)] {
+            if fd_is_open(raw) {
+                ex.fail("C06:fd-leak", format!("splice end `{name}` (descriptor {raw}) still open after every handle, future and close() was dropped"));
+                unsafe { libc::close(raw) };
+            }
+        }
+    }
+}
+
+fn exec_splice(case: &Case, drv: &str, fed: bool, ex: &mut Exec) {
+    let r = with_rt(drv == "iour", |rt| {
+        settle(rt, Duration::from_micros(100), || false);
+        let before = open_fds();
+        let mut w = SpliceWorld::new(rt, fed, drv == "iour");
+        let l0 = w.line("-");
+        ex.out.push(l0);
+        for l in &case.lines[1..] {
+            let ws: Vec<&str> = l.split_whitespace().collect();
+            match w.event(&ws, ex) {
+                Some(o) => ex.out.push(o),
+                None => ex.out.push("rej".into()),
+            }
+        }
+        let leaked_close = w.src.closer.is_some() || w.dst.closer.is_some();
+        let _ = leaked_close;
+        w.finish(ex);
+        drive(rt);
+        let after = open_fds();
+        if before != after {
+            ex.fail("C06:fd-balance", format!("splice: open descriptors before {before:?} after {after:?}"));
+        }
+        ex.tag(format!("splice-{drv}"));
         ex.nontrivial = true;
     });
     if let Err(e) = r {
@@ -2033,6 +2410,43 @@ fn generate(tier: &str, rng: &mut Rng) -> Vec<Case> {
             cases.push(Case { name: format!("incoming-burst-{j}-{tail}"), lines });
         }
     }
+    // ---- produced descriptor = 0 (stdin closed, as in a daemonised process)
+    for drv in ["iour", "poll"] {
+        for kind in ["open", "socket", "pipe", "accept", "multi"] {
+            let progs: Vec<Vec<&str>> = if kind == "accept" || kind == "multi" {
+                vec![
+                    vec!["submit", "connect", "settle", "poll"],
+                    vec!["submit", "connect", "settle", "drop", "settle"],
+                    vec!["connect", "submit", "settle", "poll", "drop", "settle"],
+                ]
+            } else {
+                vec![
+                    vec!["submit", "settle", "poll"],
+                    vec!["submit", "settle", "drop", "settle"],
+                    vec!["submit", "drop", "settle"],
+                ]
+            };
+            for (j, prog) in progs.iter().enumerate() {
+                let mut lines = vec![format!("prod {drv} {kind} fd0")];
+                lines.extend(prog.iter().map(|s| s.to_string()));
+                lines.push("end".into());
+                cases.push(Case { name: format!("fd0-{drv}-{kind}-{j}"), lines });
+            }
+        }
+    }
+    // ---- splice: the operation that holds clones of two descriptors; every order of start / cancel|fin /
+    //      close / drop of the two ends up to a depth
+    for drv in ["iour", "poll"] {
+        for fed in ["", " fed"] {
+            let mut seqs: Vec<Vec<String>> = vec![];
+            enum_splice(if quick { 4 } else { 6 }, &mut vec![], &mut seqs);
+            for (i, sq) in seqs.into_iter().enumerate() {
+                let mut lines = vec![format!("splice {drv}{fed}")];
+                lines.extend(sq);
+                cases.push(Case { name: format!("splice-{drv}{}-{i}", fed.trim()), lines });
+            }
+        }
+    }
     for k in ["socket", "accept", "open"] {
         cases.push(Case { name: format!("fallback-{k}"), lines: vec![format!("fallback {k}")] });
     }
@@ -2069,6 +2483,41 @@ fn enum_prod(alpha: &[&str], depth: usize, cur: &mut Vec<String>, out: &mut Vec<
         }
         cur.push(a.to_string());
         enum_prod(alpha, depth - 1, cur, out);
+        cur.pop();
+    }
+}
+
+/// splice programs: `start` first, then any applicable order of the other events
+fn enum_splice(depth: usize, cur: &mut Vec<String>, out: &mut Vec<Vec<String>>) {
+    if cur.len() >= 2 {
+        out.push(cur.clone());
+    }
+    if depth == 0 {
+        return;
+    }
+    let has = |cur: &Vec<String>, e: &str| cur.iter().any(|x| x == e);
+    let started = has(cur, "start");
+    let over = has(cur, "cancel") || has(cur, "fin");
+    let mut next: Vec<&str> = vec![];
+    if !started {
+        next.push("start");
+    } else {
+        if !over {
+            next.push("cancel");
+            next.push("fin");
+        }
+        for (close, poll, drop) in [("closein", "pollin", "dropin"), ("closeout", "pollout", "dropout")] {
+            if !has(cur, close) && !has(cur, drop) {
+                next.push(close);
+                next.push(drop);
+            } else if has(cur, close) && cur.last().map(|l| l != poll && l != close).unwrap_or(false) {
+                next.push(poll);
+            }
+        }
+    }
+    for e in next {
+        cur.push(e.to_string());
+        enum_splice(depth - 1, cur, out);
         cur.pop();
     }
 }
@@ -2242,7 +2691,10 @@ fn exec_inner(case: &Case, head: &[&str], ex: &mut Exec) {
         ["sfd", "unsync"] => exec_sfd::<compio_driver::SharedFd<Tracked>>(case, false, ex),
         ["sfd", "sync"] => exec_sfd::<fd_sync::SharedFd<Tracked>>(case, true, ex),
         ["rt", d @ ("iour" | "poll"), kind] => exec_rt(case, *d == "iour", kind, ex),
-        ["prod", d @ ("iour" | "poll" | "iour2"), kind] => exec_prod(case, d, kind, ex),
+        ["prod", d @ ("iour" | "poll" | "iour2"), kind] => exec_prod(case, d, kind, false, ex),
+        ["prod", d @ ("iour" | "poll"), kind, "fd0"] => exec_prod(case, d, kind, true, ex),
+        ["splice", d @ ("iour" | "poll")] => exec_splice(case, d, false, ex),
+        ["splice", d @ ("iour" | "poll"), "fed"] => exec_splice(case, d, true, ex),
         ["fallback", ..] => {
             exec_fallback(case, ex);
             pad(ex);
